@@ -25,11 +25,13 @@ def letter_maps(numpy):
         'counts': [0, 1, 2, 3, 5, 8],
         'negint': [-7, -4, -3, -1, 0, 2],        # whole numbers around zero: half-integer queries are negative
         'bigcount': [99999, 100000, 100001, 100002, 2500000, 10 ** 9],      # event counts of large catalogs: neighbours differ by 1
+        # whole numbers beyond 2**53 (nanosecond time stamps, 64-bit identifiers): neighbours are not distinguishable as doubles
+        'hugeint': [2 ** 53, 2 ** 53 + 1, 2 ** 53 + 2, 2 ** 53 + 3, 2 ** 60 + 1, 2 ** 62 + 1],
         'withinf': [float('-inf'), -2.0, -1.0, 0.5, 3.5, float('inf')],      # log-likelihoods of impossible catalogs are -inf
     }
 
 
-INTKINDS = ('int', 'counts', 'negint', 'bigcount')
+INTKINDS = ('int', 'counts', 'negint', 'bigcount', 'hugeint')
 
 
 def query_value(vals, q, kind):
@@ -48,6 +50,8 @@ def query_value(vals, q, kind):
     if i == len(vals):
         return vals[-1] + 1 if kind in INTKINDS else (math.nextafter(vals[-1], math.inf))
     lo, hi = vals[i - 1], vals[i]
+    if kind == 'hugeint':
+        return (lo + hi) // 2 if hi - lo >= 2 else None       # (a half is not representable next to such numbers)
     if kind in INTKINDS:
         return lo + 0.5 if hi - lo >= 1 else None
     mid = lo + (hi - lo) / 2
@@ -95,6 +99,8 @@ def run(chk, replay=None):
             x = numpy.array(sample, dtype=numpy.int64)
         elif container in DTYPES and kind == 'negint' and 'uint' in container:
             x = numpy.array(sample, dtype=numpy.int64)        # (negative values: signed storage)
+        elif kind == 'hugeint':
+            x = list(sample) if container == 'list' else numpy.array(sample, dtype=(numpy.uint64 if container == 'npuint64' else numpy.int64))
         elif container in DTYPES and kind == 'bigcount':
             x = numpy.array(sample, dtype=(numpy.uint64 if container == 'npuint64' else (numpy.int32 if container == 'npint32' else numpy.int64)))
         elif container in DTYPES and kind in INTKINDS:
@@ -169,6 +175,8 @@ def run(chk, replay=None):
         kinds = kinds + ['withinf']
     if 'bigcount' not in kinds:
         kinds = kinds + ['bigcount']
+    if 'hugeint' not in kinds:
+        kinds = kinds + ['hugeint']
     nb = 0
     for ci, case in enumerate(cases):
         cnt, n, ge, le = case['cnt'], case['n'], case['ge'], case['le']
@@ -179,13 +187,16 @@ def run(chk, replay=None):
             cont = rng.choice(containers)
             bad = eval_case(cnt, n, ge, le, kind, cont)
             if bad:
-                nb += 1
                 fn = bad[0][0]
                 q = bad[0][1]
                 cls = 'on-tie' if q % 2 == 0 and cnt[q // 2 - 1] >= 2 else ('on-value' if q % 2 == 0 else (
                     'below-all' if q == 1 else ('above-all' if q == 2 * A + 1 else 'between')))
-                chk.violation('gen:%s:%s' % (fn, cls), {'cnt': cnt, 'n': n, 'ge': ge, 'le': le, 'kind': kind,
-                                                       'container': cont, 'mismatches': bad[:5]})
+                # (unsigned 64-bit samples beyond 2**53 queried with a Python int are a finding of their own: numpy compares the
+                #  two through float64)
+                special = ':uint64-beyond-2**53' if (kind == 'hugeint' and cont == 'npuint64') else ''
+                if chk.violation('gen:%s:%s%s' % (fn if not special else 'ecdf', cls if not special else 'query', special),
+                                 {'cnt': cnt, 'n': n, 'ge': ge, 'le': le, 'kind': kind, 'container': cont, 'mismatches': bad[:5]}):
+                    nb += 1
         if ci < 2:
             chk.sample({'multiset_counts': cnt, 'n': n, 'expected_ge_numerators': ge, 'expected_le_numerators': le})
     if nb == 0:
